@@ -429,6 +429,7 @@ type raceSys struct {
 	ts    [raceTargets]notifier.Target
 	ids   map[notifier.Target]int
 	clock atomic.Int64
+	wb    bool // the white-box view of the registry is available
 }
 
 func newRaceSys() *raceSys {
@@ -447,6 +448,7 @@ func newRaceSys() *raceSys {
 	s.oref.register(4, 3, []string{"a", "b.x"})
 	s.other.Register(s.ts[0], -2, "a.b")
 	s.oref.register(0, -2, []string{"a.b"})
+	s.wb = wbDump(s.n, s.idOf) != ""
 	return s
 }
 
@@ -481,8 +483,9 @@ func (s *raceSys) exec(o *opRec) {
 	case "copyout":
 		fresh := notifier.New(nil)
 		fresh.RegisterFromNotifier(s.n)
-		d := fresh.VerifDump(s.idOf)
-		o.dumpRes = d[:strings.Index(d, " C[")]
+		if d := wbDump(fresh, s.idOf); d != "" {
+			o.dumpRes = d[:strings.Index(d, " C[")]
+		}
 	}
 	o.ret = s.clock.Add(1)
 	s.w.cur.Delete(g)
@@ -506,7 +509,7 @@ func (s *raceSys) apply(r *ref, o *opRec) bool {
 	case "level":
 		return o.intRes == r.level
 	case "copyout":
-		return o.dumpRes == r.dump(false)
+		return !s.wb || o.dumpRes == r.dump(false)
 	case "start", "end":
 		var want []int
 		if o.kind == "start" {
@@ -566,7 +569,7 @@ func (s *raceSys) linearize(start *ref, progs [][]*opRec, final string) *ref {
 			}
 		}
 		if done {
-			if r.dump(true) == final {
+			if final == "" || r.dump(true) == final {
 				found = r
 				return true
 			}
@@ -633,7 +636,7 @@ func raceRun(seed uint64, g, rounds int) (out string) {
 	overlaps := 0
 	// ---- linearizability rounds
 	for round := 0; round < rounds; round++ {
-		if got := s.n.VerifDump(s.idOf); got != cur.dump(true) {
+		if got := wbDump(s.n, s.idOf); s.wb && got != cur.dump(true) {
 			return fmt.Sprintf("FAIL round %d starts from %s, reference %s", round, got, cur.dump(true))
 		}
 		batchRound := round%3 == 2
@@ -696,7 +699,7 @@ func raceRun(seed uint64, g, rounds int) (out string) {
 		if escaped.Load() > 0 {
 			return fmt.Sprintf("FAIL round %d: a panic escaped the notifier", round)
 		}
-		final := s.n.VerifDump(s.idOf)
+		final := wbDump(s.n, s.idOf) // "" without the white-box view: only the observations are explained
 		next := s.linearize(cur, progs, final)
 		if next == nil {
 			var sb strings.Builder
